@@ -4,9 +4,13 @@ import hashlib, importlib, json, os, resource, subprocess, sys, time
 ROOT = os.path.dirname(os.path.dirname(os.path.abspath(__file__)))
 HARNESS = os.path.join(ROOT, "harness")
 CACHE = os.path.join(ROOT, ".cache")
-REPO = "/repo"
-EVIDENCE = os.path.join(ROOT, "evidence")
-REPLAYS = os.path.join(ROOT, "replays")
+# VERIF_REPO lets the same checks run against a scratch worktree of the repository (mutation testing by
+# sub-agents, seeded-change confirmation) without touching /repo: the harness's path dependency on /repo is
+# overridden with cargo's `paths` config, and build output / evidence / replays go to separate directories.
+REPO = os.path.abspath(os.environ.get("VERIF_REPO", "/repo"))
+ALT = "" if REPO == "/repo" else "-alt" + hashlib.sha1(REPO.encode()).hexdigest()[:8]
+EVIDENCE = os.path.join(ROOT, "evidence") if not ALT else os.path.join(CACHE, "evidence" + ALT)
+REPLAYS = os.path.join(ROOT, "replays") if not ALT else os.path.join(CACHE, "replays" + ALT)
 KNOWN = os.path.join(ROOT, "known_findings.json")
 
 
@@ -38,7 +42,7 @@ def nproc():
 # ---------------------------------------------------------------- building --
 
 def target_dir(variant):
-    return os.path.join(CACHE, "target-harness" + ("" if variant == "default" else "-" + variant))
+    return os.path.join(CACHE, "target-harness" + ("" if variant == "default" else "-" + variant) + ALT)
 
 
 def build_bin(binname, variant="default", features=()):
@@ -48,6 +52,8 @@ def build_bin(binname, variant="default", features=()):
     cmd = ["cargo", "build", "--offline", "--release", "-p", "svh", "--bin", binname, "--target-dir", td]
     if features:
         cmd += ["--features", ",".join(features)]
+    if ALT:
+        cmd += ["--config", 'paths=["%s"]' % REPO]
     p = subprocess.run(cmd, cwd=HARNESS, env=base_env(), stdout=subprocess.PIPE, stderr=subprocess.STDOUT, text=True)
     if p.returncode != 0:
         tail = "\n".join(l for l in p.stdout.splitlines() if not l.startswith("warning"))[-3000:]
@@ -55,7 +61,7 @@ def build_bin(binname, variant="default", features=()):
     return os.path.join(td, "release", binname)
 
 
-CLI_TARGET = os.path.join(CACHE, "target-cli")
+CLI_TARGET = os.path.join(CACHE, "target-cli" + ALT)
 
 
 def build_cli():
@@ -181,6 +187,24 @@ def run_check(pid, spec, tier, replay):
         mod = importlib.import_module(spec["module"])
         ctx = {"pid": pid, "tier": tier, "replay": replay, "seed": seed(), "spec": spec}
         return mod.run(ctx)
+    elif kind == "mixed":
+        # in-process explorer binaries + a CLI-batch module; a replay file goes to the side that produced it
+        side = None
+        if replay:
+            with open(replay) as f:
+                rj = json.load(f)
+            side = "py" if ((rj.get("case") or {}).get("kind") in ("cli",) or (rj.get("case") or {}).get("side") == "py") else "rust"
+        reps = []
+        if side in (None, "rust"):
+            for (binname, variant, feats) in spec["bins"]:
+                path = build_bin(binname, variant, feats)
+                cap = spec.get("wall_cap", {}).get(tier, 900 if tier == "quick" else 3600)
+                reps.append(("lib/" + variant, run_bin(path, tier, replay, timeout=cap)))
+        if side in (None, "py"):
+            mod = importlib.import_module(spec["module"])
+            ctx = {"pid": pid, "tier": tier, "replay": replay, "seed": seed(), "spec": spec}
+            reps.append(("cli", mod.run(ctx)))
+        return merge_reports(reps)
     raise Machinery(f"unknown check kind {kind}")
 
 
@@ -190,7 +214,12 @@ def load_known():
     if not os.path.exists(KNOWN):
         return []
     with open(KNOWN) as f:
-        return json.load(f)["findings"]
+        out = list(json.load(f)["findings"])
+    import glob
+    for fn in sorted(glob.glob(os.path.join(ROOT, "known.d", "*.json"))):
+        with open(fn) as f:
+            out += json.load(f)["findings"]
+    return out
 
 
 def finish(pid, spec, tier, report, wall, replay):
